@@ -146,6 +146,12 @@ func FieldPath(info *types.Info, e ast.Expr) (root types.Object, path string) {
 func ConstInt(info *types.Info, e ast.Expr) (int64, bool) {
 	tv, ok := info.Types[e]
 	if !ok || tv.Value == nil {
+		// a package-level variable with a constant initialiser that is never assigned (encoder's `nul`)
+		if id, isId := Unparen(e).(*ast.Ident); isId {
+			if v, ok := LooseConsts[info.Uses[id]]; ok {
+				return v, true
+			}
+		}
 		return 0, false
 	}
 	v := constant.ToInt(tv.Value)
@@ -532,4 +538,85 @@ func PathTo(root ast.Node, target ast.Node) []ast.Node {
 		return nil
 	}
 	return path
+}
+
+// LooseConsts maps package-level variables of the module that have a constant
+// initialiser and are never assigned or address-taken to that constant.
+var LooseConsts = map[types.Object]int64{}
+
+// RegisterLooseConsts scans one package.
+func RegisterLooseConsts(pk *packages.Package) {
+	info := pk.TypesInfo
+	cand := map[types.Object]int64{}
+	for _, f := range pk.Syntax {
+		for _, d := range f.Decls {
+			gd, ok := d.(*ast.GenDecl)
+			if !ok || gd.Tok != token.VAR {
+				continue
+			}
+			for _, sp := range gd.Specs {
+				vs := sp.(*ast.ValueSpec)
+				for i, id := range vs.Names {
+					if i < len(vs.Values) {
+						if tv, ok := info.Types[vs.Values[i]]; ok && tv.Value != nil {
+							v := constant.ToInt(tv.Value)
+							if v.Kind() == constant.Int {
+								if x, ok := constant.Int64Val(v); ok {
+									cand[info.Defs[id]] = x
+								}
+							}
+						}
+					}
+				}
+			}
+		}
+	}
+	if len(cand) == 0 {
+		return
+	}
+	for _, f := range pk.Syntax {
+		ast.Inspect(f, func(n ast.Node) bool {
+			switch x := n.(type) {
+			case *ast.AssignStmt:
+				for _, l := range x.Lhs {
+					delete(cand, ObjOf(info, l))
+				}
+			case *ast.IncDecStmt:
+				delete(cand, ObjOf(info, x.X))
+			case *ast.UnaryExpr:
+				if x.Op == token.AND {
+					delete(cand, ObjOf(info, x.X))
+				}
+			}
+			return true
+		})
+	}
+	for o, v := range cand {
+		LooseConsts[o] = v
+	}
+}
+
+// ReturnIsError reports whether ret definitely returns a non-nil error: its
+// last result is an error-typed call (constructor), composite literal, or an
+// error variable; a bare tail call `return f(x)` and a nil last result are not.
+func ReturnIsError(info *types.Info, ret *ast.ReturnStmt) bool {
+	if len(ret.Results) == 0 {
+		return false
+	}
+	last := Unparen(ret.Results[len(ret.Results)-1])
+	if IsNilIdent(info, last) {
+		return false
+	}
+	tv := info.Types[last]
+	if tv.Type == nil {
+		return false
+	}
+	if _, isTuple := tv.Type.(*types.Tuple); isTuple {
+		return false
+	}
+	errIface := types.Universe.Lookup("error").Type().Underlying().(*types.Interface)
+	if !types.Implements(tv.Type, errIface) {
+		return false
+	}
+	return true
 }
